@@ -44,13 +44,13 @@ func copyStateHistory(
 			src, dst = dst, src
 		}
 		err := copyValue(reader, batch, scratch.value[:], src, dst)
-		if direction == historyToScratch && errors.Is(err, db.ErrKeyNotFound) {
-			// A run that died after the live history buckets were wiped for the
-			// restore has already staged this entry: its only copy is the scratch
-			// one, keep it.
-			if staged, hasErr := reader.Has(dst); hasErr == nil && staged {
-				return nil
-			}
+		if errors.Is(err, db.ErrKeyNotFound) {
+			// No entry to copy. The state diff names every key the block wrote, but zero
+			// written to an empty storage slot logs no history entry, and a database written
+			// by the new state backend has none in these buckets at all. It also covers a
+			// run that died after the live history buckets were wiped for the restore: the
+			// entry's only copy is already staged.
+			return nil
 		}
 		return err
 	}
